@@ -35,8 +35,15 @@ class Ctx:
     def __init__(self, ex, st, entry=None):
         self.ex, self.st, self.entry = ex, st, entry
 
+    def _local(self, name):
+        try:
+            return self.st.locals[name]
+        except KeyError:
+            from .values import SymErr
+            raise SymErr('the contract names the local %r, which the function does not have (renamed?): the contract has to be re-derived' % name)
+
     def __getitem__(self, name):
-        v = self.st.locals[name]
+        v = self._local(name)
         return self.deref(v)
 
     def has(self, name):
@@ -48,13 +55,13 @@ class Ctx:
         return v
 
     def raw(self, name):
-        return self.st.locals[name]
+        return self._local(name)
 
     def path(self, p):
         """'self._gfx._data' or 'pixel_row[3]' -> the value (usually a Ref) at that access path."""
         import re
         toks = re.findall(r'[A-Za-z_][A-Za-z_0-9]*|\[\d+\]', p)
-        v = self.st.locals[toks[0]]
+        v = self._local(toks[0])
         for f in toks[1:]:
             if f.startswith('['):
                 v = self.st.heap[v.id].get(int(f[1:-1]))
